@@ -61,11 +61,28 @@ def entry_annotation(e):
         return PyTree[leaf, e["structure"]] if e.get("structure") else PyTree[leaf]
     if e["kind"] == "unrepr":
         return Unprintable
+    if e["kind"] == "fickle":
+        return Fickle
     if e["kind"] == "cfg":
         # a class created afresh for every decorated function, always under the same name: annotations that print
         # alike but are different objects
         return type("Cfg", (), {})
     raise AssertionError(e)
+
+
+class _FickleMeta(type):
+    """isinstance() answers False the first time it is asked after reset(), True from then on: the full check of a call reports a
+    violation that the one-parameter-at-a-time re-check (used to name the culprit) cannot reproduce."""
+
+    asked = 0
+
+    def __instancecheck__(cls, obj):
+        _FickleMeta.asked += 1
+        return _FickleMeta.asked > 1
+
+
+class Fickle(metaclass=_FickleMeta):
+    pass
 
 
 class Unprintable:
@@ -79,6 +96,8 @@ class Unprintable:
 def entry_value(e, ns=None):
     if e["kind"] == "unrepr":
         return Unprintable()
+    if e["kind"] == "fickle":
+        return object()
     if e["kind"] == "cfg":
         return ns[f"A_{e['name']}"]()
     if e["kind"] == "pytree":
@@ -88,7 +107,7 @@ def entry_value(e, ns=None):
 
 def entry_model(e, m):
     """-> (allowed, new ctx, tentative, new_struct_name)"""
-    if e["kind"] in ("cfg", "unrepr"):
+    if e["kind"] in ("cfg", "unrepr", "fickle"):
         return {dl.TRUE}, m, 0, None
     ms = gc.meanings_of(e)
     if e["kind"] in ("array", "union"):
@@ -144,8 +163,9 @@ def check_case(ctx, case):
     if w["stage"] == "unspecified":
         ctx.classes["skipped-unspecified"] += 1
         return
-    desc = {"params": [(p["name"], p["kind"], gc.spec_of(p) if p["kind"] not in ("cfg", "unrepr") else p["kind"], p.get("structure"), p.get("shape", p.get("tree"))) for p in case["params"]],
+    desc = {"params": [(p["name"], p["kind"], gc.spec_of(p) if p["kind"] not in ("cfg", "unrepr", "fickle") else p["kind"], p.get("structure"), p.get("shape", p.get("tree"))) for p in case["params"]],
             "ret": (gc.spec_of(case["ret"]), case["ret"]["shape"]) if case["ret"] else None, "flag": case["flag"]}
+    fickle = any(p["kind"] == "fickle" for p in case["params"])
     for ck in ("typeguard", "beartype"):
         fn, ns = build(case, ck, case["fname"])
         ns["__ret"][0] = entry_value(case["ret"]) if case["ret"] else None
@@ -153,6 +173,7 @@ def check_case(ctx, case):
             vals = [entry_value(p, ns) for p in case["params"]]
             args, kwargs = (vals, {}) if style == "pos" else ([], {p["name"]: v for p, v in zip(case["params"], vals)})
             jaxtyping.config.update("jaxtyping_remove_typechecker_stack", case["flag"])
+            _FickleMeta.asked = 0
             try:
                 try:
                     fn(*args, **kwargs)
@@ -164,6 +185,15 @@ def check_case(ctx, case):
             where = f"[{ck}/{style}] {desc}"
             ncalls = len(ns["__calls"])
             ns["__calls"].clear()
+            if fickle:
+                # the typechecker rejected the call (its first look at the fickle parameter said no): the call must be rejected
+                # and the body must not run, even though no single parameter can be named afterwards
+                if not isinstance(exc, (TypeCheckError, AnnotationError)):  # (an annotation misuse elsewhere in the signature may surface instead)
+                    raise Violation("not-raised", dict(case, variant=[ck, style]),
+                                    f"the typechecker rejected the arguments (a parameter's isinstance answered False once), but the call {'returned' if exc is None else 'raised ' + type(exc).__name__} {where}")
+                if ncalls != 0:
+                    raise Violation("body-ran", dict(case, variant=[ck, style]), f"body ran although the typechecker rejected the arguments {where}")
+                continue
             if w["stage"] == "ok":
                 if exc is not None:
                     raise Violation("raised-on-well-typed", dict(case, variant=[ck, style]), f"well-typed call raised {type(exc).__name__}: {str(exc)[:300]} {where}")
@@ -211,7 +241,7 @@ def check_case(ctx, case):
     rejected = w["stage"] in ("param", "return")
     nontrivial = rejected and (w.get("tentative", 0) >= 1 or w.get("rolled") or (w["stage"] == "return" and bool(w["m"].bindings())))
     ctx.note([desc], nontrivial,
-             classes=[f"stage-{w['stage']}", f"flag-{case['flag']}"] + ([f"allowed-{'+'.join(sorted(w['allowed']))}", f"fail-index-{w['index']}"] if rejected else [])
+             classes=(["unpinnable-violation"] if fickle else []) + [f"stage-{w['stage']}", f"flag-{case['flag']}"] + ([f"allowed-{'+'.join(sorted(w['allowed']))}", f"fail-index-{w['index']}"] if rejected else [])
              + (["union-rolled-back-before"] if w.get("rolled") else []) + ([f"tentative-{min(w.get('tentative', 0), 3)}"] if rejected else []),
              sample=dict(desc, first_failure=[w["stage"], w.get("index")], bindings_in_force=w["m"].bindings() if "m" in w else None))
 
@@ -265,6 +295,9 @@ def c13_case(draw):
     if draw(st.integers(0, 3)) == 0:
         pos = draw(st.integers(0, len(case["params"])))
         case["params"].insert(pos, {"name": "handle", "kind": "unrepr", "tokens": []})
+    if draw(st.integers(0, 9)) == 0:
+        pos = draw(st.integers(0, len(case["params"])))
+        case["params"].insert(pos, {"name": "fk", "kind": "fickle", "tokens": []})
     case["flag"] = draw(st.sampled_from([True, False]))
     case["fname"] = draw(st.sampled_from(FNAMES))
     return case
